@@ -797,6 +797,91 @@ func statusStorm(w *vgen.Writer, n int) int {
 	return anomalies
 }
 
+// attrProc checks, in OnEnd, that the delivered attributes are exactly a, b, c (de-duplicated, last value wins).
+type attrProc struct{ bad atomic.Int64 }
+
+func attrsOK(kvs []attribute.KeyValue) bool {
+	if len(kvs) != 3 {
+		return false
+	}
+	seen := map[attribute.Key]int64{}
+	for _, kv := range kvs {
+		seen[kv.Key] = kv.Value.AsInt64()
+	}
+	return len(seen) == 3 && seen["a"] == 2 && seen["b"] == 2 && seen["c"] == 1
+}
+func (p *attrProc) OnStart(context.Context, sdktrace.ReadWriteSpan) {}
+func (p *attrProc) OnEnd(s sdktrace.ReadOnlySpan) {
+	if !attrsOK(s.Attributes()) {
+		p.bad.Add(1)
+	}
+}
+func (p *attrProc) Shutdown(context.Context) error   { return nil }
+func (p *attrProc) ForceFlush(context.Context) error { return nil }
+
+// dedupeStorm: n spans carrying repeated keys (not yet compacted); for each, released together by a rendezvous,
+// one goroutine Ends it (snapshot() compacts the attributes in place) while another reads Attributes() on the
+// live span (compacts in place too). Both must see exactly the three distinct keys, nobody may panic.
+func dedupeStorm(w *vgen.Writer, n int) int {
+	anomalies := 0
+	const batch = 10000
+	for done := 0; done < n && !stuck.Load(); done += batch {
+		m := min(batch, n-done)
+		desc := map[string]any{"fragment": "dedupe-storm", "spans": m}
+		watchdog(w, "dedupe storm", desc, 30*time.Second, func(w *proxy) {
+			ap := &attrProc{}
+			tp := sdktrace.NewTracerProvider(sdktrace.WithSpanProcessor(ap))
+			tr := tp.Tracer("c10")
+			spans := make([]trace.Span, m)
+			for i := range spans {
+				_, spans[i] = tr.Start(context.Background(), "root", trace.WithNewRoot())
+				spans[i].SetAttributes(attribute.Int("a", 1), attribute.Int("b", 1), attribute.Int("a", 2), attribute.Int("c", 1), attribute.Int("b", 2))
+			}
+			var at [2]atomic.Int64
+			var live, panics atomic.Int64
+			var firstPanic atomic.Value
+			var wg sync.WaitGroup
+			for g := 0; g < 2; g++ {
+				wg.Add(1)
+				go func(g int) {
+					defer wg.Done()
+					for i := 0; i < m; i++ {
+						at[g].Store(int64(i + 1))
+						for k := 0; at[1-g].Load() < int64(i+1); k++ {
+							if k&63 == 63 {
+								runtime.Gosched()
+							}
+						}
+						func() {
+							defer func() {
+								if p := recover(); p != nil {
+									panics.Add(1)
+									firstPanic.CompareAndSwap(nil, fmt.Sprint(p))
+								}
+							}()
+							if (g == 0) == (i&1 == 0) {
+								spans[i].End()
+							} else if !attrsOK(spans[i].(sdktrace.ReadOnlySpan).Attributes()) {
+								live.Add(1)
+							}
+						}()
+					}
+				}(g)
+			}
+			wg.Wait()
+			if p := panics.Load(); p > 0 {
+				w.Violation(fmt.Sprintf("panic in End / Attributes() racing on a span with repeated attribute keys (%d times): %v", p, firstPanic.Load()), desc)
+			}
+			if b, l := ap.bad.Load(), live.Load(); b+l > 0 {
+				w.Violation(fmt.Sprintf("End racing Attributes() on a span with repeated keys: %d delivered snapshots and %d live reads did not show exactly the de-duplicated attributes", b, l), desc)
+			}
+			anomalies += int(panics.Load() + ap.bad.Load() + live.Load())
+			w.Tally("dedupe-storm:batch")
+		})
+	}
+	return anomalies
+}
+
 // ---- generators ----
 
 func genOp(r *vgen.Rand, endWeight int) op {
@@ -1343,6 +1428,9 @@ func main() {
 		t0 := time.Now()
 		nStatus := o.Count(300000, 3000000)
 		sa := statusStorm(w, nStatus)
+		nd := o.Count(100000, 1000000)
+		da := dedupeStorm(w, nd)
+		w.Extra["dedupe_storm"] = fmt.Sprintf("%d spans with repeated keys, End racing Attributes() on the live span, %d anomalies", nd, da)
 		w.Extra["status_storm"] = fmt.Sprintf("%d spans with racing SetStatus(Ok)/SetStatus(Error), %d anomalies, %s", nStatus, sa, time.Since(t0).Round(time.Millisecond))
 	}
 	w.Extra["storm_trials"] = nStormCorpus + nStorm/2*2
